@@ -56,6 +56,9 @@ class C02(Prop):
     QUICK = (40, 18)
     THOROUGH = (200, 40)
     EXHAUSTIVE_KEYS = ("permutation_histories",)
+    TECHNIQUE = ("stateful property-based testing (Hypothesis) against a ledger oracle; thorough tier adds coverage-guided "
+                 "fuzzing of histories (atheris/libFuzzer driving Hypothesis' fuzz_one_input)")
+    FUZZ_RUNS = 400
     ASSUMPTIONS = ["closure = stem-prefixes of every LRU named in a write request or listed in a write report",
                    "fsck parses the files with its own struct code (format 75pBI6Q / QQ as documented in the repository)"]
 
